@@ -164,9 +164,14 @@ def close(registry, filename, private=True):
                     s = value.serialize()
                 else:
                     s = 'CENSORED'
-                fd.write('%s: %s\n' % (name, s))
             except Exception:
                 exception('Exception printing value:')
+            else:
+                # Not inside the try: a write that fails (disk full, text
+                # that cannot be encoded) must abort the whole flush and
+                # leave the old file in place, not commit a file in which
+                # this value is missing.
+                fd.write('%s: %s\n' % (name, s))
     fd.close()
 
 def isValidRegistryName(name):
